@@ -295,5 +295,30 @@ func runC26(p *core.Prog, r *core.Report) {
 				"after this replication attempt the 'keep the local copy because some holders were only taken on trust' decision is never reached: if the attempt fails, a container node removes its copy although the only other 'holders' are maintenance nodes nobody has heard from")
 		}
 	}
+	// ---------------- R8 among several local copies the one kept is one that exists
+	r8 := r.Rule("C26.R8", "StorageEngine.DeleteRedundantCopies (the policer's removal of extra local copies of an object it decided to KEEP) chooses the keeper among the shards that were listed as holding the object: both the keeper assignment and the removal list are behind 'the shard is one of the listed holders'", 2)
+	if dr := p.Func("(*pkg/local_object_storage/engine.StorageEngine).DeleteRedundantCopies"); dr == nil {
+		r.Fatalf("C26.R8: DeleteRedundantCopies not found")
+	} else {
+		listed := core.Guard{Name: "shard-is-a-listed-holder", Match: func(s core.Site) bool {
+			return strings.HasPrefix(s.Name, "slices.Contains") && len(s.Call.Common().Args) == 2 && core.RootParam(dr, s.Call.Common().Args[0]) == 3
+		}, Comps: []core.Comp{{Result: -1, Kind: core.IsTrue}}}
+		core.CheckEffectsFn(p, r8, dr, core.EffectRule{Min: 2, Guards: []core.Guard{listed}, Effect: func(_ *core.Prog, in ssa.Instruction) (string, bool) {
+			switch x := in.(type) {
+			case *ssa.Store:
+				if al, ok := x.Addr.(*ssa.Alloc); ok && al.Comment == "keeperShard" {
+					if _, isC := x.Val.(*ssa.Const); !isC {
+						return "keeper-chosen", true
+					}
+				}
+			case *ssa.Call:
+				if core.CalleeName(x) == "builtin.append" && strings.HasSuffix(x.Type().String(), "engine.shardWrapper") {
+					return "copy-to-remove", true
+				}
+			}
+			return "", false
+		}})
+	}
+	r.Explain += " (R8) when the policer keeps an object that lies on several local shards, the engine keeps the copy of a shard that is in the listed holders and marks the others: a keeper chosen before that membership test may hold nothing, and every real copy is then marked redundant."
 	r.Explain += " (R7) in processNodes a store needLocalCopy=true guarded by the number of copies counted on trust is reachable from each tryToReplicate call of the function, i.e. the protection is not an alternative to the shortage / misplacement branches."
 }
